@@ -502,6 +502,12 @@ def wb_cases(tier):
                         yield ['wb', flat, g, False, False]
 
 
+    # the eager error-absorbing reader on a cycle that closes through a SELECTED lazy branch of the other cell (recorded finding:
+    # the circular error appears at the cell that owns the branch only, and IFERROR intercepts it on its way round the cycle)
+    for lazyform in (2, 12):
+        yield ['wb', [0, 0, 0, 0, 0, lazyform, 0, 13, 0], True, False, False]
+
+
 # ------------------------------------------------------------ real hash seeds
 def seed_family():
     fam = []
